@@ -14,7 +14,7 @@ from .. import core, env, gen, specs
 from .. import tdfref as R
 
 PROP = "C13"
-RULE = ("states = distinct (width, string) / (width, bytes) inputs; write side: <=1 deviation from 'a'*L over a "
+RULE = ("states = distinct (width, string) / (width, bytes) inputs (+ ordered pairs of calls with the same string and two widths); write side: <=1 deviation from 'a'*L over a "
         "258-symbol alphabet for widths {1,2,3,4,8,32,256} and <=2 deviations for widths <=3 (thorough <=4); read side: "
         "all 256^w strings w<=2 + first-NUL position x neighbouring byte for w in {4,32,256}; non-trivial = input "
         "contains a non-ASCII symbol, a NUL, or has length >= width-1")
@@ -187,8 +187,56 @@ def _shard(shard):
             except core.Violation as v:
                 acc.violation(v.clause, v.sig, {"kind": "read", "width": width, "raw": raw.hex()}, v.detail)
         acc.sample({"read": f"width {width}: {'all byte strings' if width <= 2 else 'first-NUL position x neighbour byte'}"}, 1)
+    elif kind == "pairs":
+        return pairs_shard(acc)
     else:
         return fields_shard(acc)
+    return acc
+
+
+def pairs_shard(acc):
+    """Two calls in a row with the SAME string: the second call must be judged on its own width
+    (state kept between calls - a cache keyed on the text - must not leak the first width)."""
+    BTS = specs.lib().types.BTSString
+    for w1 in WIDTHS:
+        for w2 in WIDTHS:
+            if w1 == w2:
+                continue
+            for L in sorted({0, 1, w2 - 2, w2 - 1, w2, w2 + 1, w1 - 1, w1, (w1 + w2) // 2}):
+                if L < 0 or L > 300:
+                    continue
+                for tail in ("", "\xe9", "\u20ac", "\u0100"):
+                    if L == 0:
+                        continue
+                    # a text no earlier call of this process has seen (the pair is the whole history
+                    # of that text): its first characters name the pair of widths
+                    tagc = "ABCDEFGHIJKLMNOPQRSTUVWXYZabcdefghijklmnopqrstuvwxyz"[WIDTHS.index(w1) * len(WIDTHS) + WIDTHS.index(w2)]
+                    s = (tagc + ("" if not tail else "t") + "b" * L)[:L]
+                    if tail:
+                        if L < 2:
+                            continue
+                        s = s[:-1] + tail
+                    acc.n["states"] += 1
+                    acc.n["evaluations"] += 1
+                    acc.n["nontrivial"] += 1
+                    try:
+                        first = BTS.write(w1, s)
+                        if isinstance(first, (bytes, bytearray)) and len(first) == w1:
+                            try:
+                                BTS.read(w1, bytes(first))
+                            except Exception:  # noqa: BLE001
+                                pass
+                    except Exception:  # noqa: BLE001
+                        pass
+                    acc.n["transitions"] += 1
+                    try:
+                        out = check_write(BTS, w2, s, acc)
+                        acc.outcomes[f"pair:w{w1}->w{w2}:{out}"] += 1
+                        acc.n["traces"] += 1
+                    except core.Violation as v:
+                        acc.violation(v.clause, v.sig + ":after-other-width", {"kind": "pair", "w1": w1, "width": w2, "s": [ord(c) for c in s]},
+                                      f"after write({w1}, same string): {v.detail}")
+    acc.sample({"pairs": "write(w1, s) then write(w2, s) for every ordered pair of widths, lengths around both boundaries"}, 1)
     return acc
 
 
@@ -311,7 +359,7 @@ def fields_shard(acc):
 
 def run(tier):
     _shard.tier = tier
-    shards = [("fields", 0, 0, 1)]
+    shards = [("fields", 0, 0, 1), ("pairs", 0, 0, 1)]
     for w in WIDTHS:
         k = 16 if w <= 4 or w == 256 else 4
         shards += [("write", w, i, k) for i in range(k)]
@@ -323,7 +371,14 @@ def replay(w):
     BTS = specs.lib().types.BTSString
     acc = core.Acc()
     try:
-        if w["kind"] == "write":
+        if w["kind"] == "pair":
+            s0 = "".join(chr(c) for c in w["s"])
+            try:
+                BTS.write(w["w1"], s0)
+            except Exception:  # noqa: BLE001
+                pass
+            check_write(BTS, w["width"], s0, acc)
+        elif w["kind"] == "write":
             check_write(BTS, w["width"], "".join(chr(c) for c in w["s"]), acc)
         elif w["kind"] == "read":
             check_read(BTS, w["width"], bytes.fromhex(w["raw"]), acc)
